@@ -21,6 +21,10 @@ from concurrent.futures import ThreadPoolExecutor
 from .common import ROOT, REPO
 
 PROPS = [f"C{i:02d}" for i in range(1, 20)]
+# evidence/ and replays/ live under /verif; self-tests against scratch copies
+# of the repository redirect them so that committed evidence only ever comes
+# from runs against /repo itself
+OUT = os.environ.get("VERIF_OUT") or ROOT
 
 
 def load_module(pid):
@@ -141,11 +145,11 @@ def merge(reports):
 
 
 def write_replay(pid, v):
-    os.makedirs(os.path.join(ROOT, "replays"), exist_ok=True)
+    os.makedirs(os.path.join(OUT, "replays"), exist_ok=True)
     blob = json.dumps({"case": v.get("case"), "rule": v.get("rule")},
                       sort_keys=True, default=str)
     dig = hashlib.sha1(blob.encode()).hexdigest()[:12]
-    path = os.path.join(ROOT, "replays", f"{pid}-{dig}.json")
+    path = os.path.join(OUT, "replays", f"{pid}-{dig}.json")
     jdump({"property": pid, "violation": v, "case": v.get("case")}, path)
     return path
 
@@ -287,8 +291,8 @@ def main(argv=None):
         "wall_s": round(wall, 2),
         "violations": len(new),
     }
-    os.makedirs(os.path.join(ROOT, "evidence"), exist_ok=True)
-    jdump(ev, os.path.join(ROOT, "evidence", f"{pid}.json"))
+    os.makedirs(os.path.join(OUT, "evidence"), exist_ok=True)
+    jdump(ev, os.path.join(OUT, "evidence", f"{pid}.json"))
 
     print(f"[{pid}] tier={tier} seed={seed} cases={m['cases']} "
           f"nontrivial={nontrivial} wall={wall:.1f}s "
